@@ -23,6 +23,7 @@ typedef struct {
   long grp;
   vs_fp_t fp[VS_MAXFP];
   int nfp; /* -1: not set (derive from op), 0..: explicit */
+  int kind; /* the harness's label of a pending point (hook kind and argument): part of the state */
   int jt;
   volatile int go;
   pthread_t real;
@@ -153,6 +154,7 @@ static int indep_fp(const vs_fp_t *a, int na, const vs_fp_t *b, int nb) {
 int vs_pc_frames = 10;
 /* control location of the calling thread: hash of up to vs_pc_frames return addresses (frame-pointer walk; all code
    involved is compiled with -fno-omit-frame-pointer, addresses are identical in every forked child) */
+static void *scenario_base_frame = 0; /* frame of vs_begin()'s caller: the main thread's chain is not followed beyond the scenario (the explorer's own recursion depth must not leak into the state) */
 extern char __executable_start, etext; /* linker-defined: text of the harness executable (wencry + harness code, all built with frame pointers) */
 static uint64_t callchain_hash(void) {
   uint64_t h = 0x9ae16a3b2f90404fULL;
@@ -160,6 +162,7 @@ static uint64_t callchain_hash(void) {
   for (int i = 0; i < vs_pc_frames && fp; i++) {
     void **next = (void **)fp[0];
     void *ret = fp[1];
+    if (my_tid == 0 && scenario_base_frame && (void *)fp >= scenario_base_frame) break;
     if ((char *)ret < &__executable_start || (char *)ret >= &etext) break; /* left our own code (libstdc++/libc frames keep no frame pointer: their chain is garbage) */
     h ^= (uint64_t)(uintptr_t)ret + 0x9e3779b97f4a7c15ULL + (h << 6) + (h >> 2);
     if (next <= fp || (char *)next - (char *)fp > (1 << 20)) break; /* end of the chain / foreign frame */
@@ -173,15 +176,16 @@ static uint64_t mix(uint64_t h, uint64_t v) {
 }
 uint64_t vs_hashparts[4]; /* debugging aid: the last state hash split into (thread ops, control locations, mutex owners, observable state) */
 static uint64_t state_hash(void) {
-  uint64_t h = 1469598103934665603ULL, a = 7, b = 11, c2 = 13;
+  uint64_t h = 1469598103934665603ULL, a = 7 + (uint64_t)vs_spurious, b = 11, c2 = 13; /* the remaining spurious wake-up budget is part of the state */
   for (int t = 0; t < nthr; t++) {
     a = mix(a, (uint64_t)T[t].st * 16 + T[t].op);
     a = mix(a, (uint64_t)grp_of(t));
+    if (T[t].op == OP_POINT) a = mix(a, (uint64_t)T[t].kind);
     if (T[t].st == ST_RUN) b = mix(b, T[t].pc + t);
     if (T[t].op == OP_JOIN) a = mix(a, T[t].jt);
   }
   for (int i = 0; i < nmu; i++)
-    if (MU[i].owner != -1) c2 = mix(c2, ((uint64_t)(vs_group_of ? vs_group_of(OP_LOCK, MU[i].m) : i) << 8) + MU[i].owner + 1);
+    if (MU[i].owner != -1) c2 += mix(17, ((uint64_t)(vs_group_of ? vs_group_of(OP_LOCK, MU[i].m) : i) << 8) + MU[i].owner + 1); /* commutative: the table order depends on the schedule */
   uint64_t o = vs_obs_hash ? vs_obs_hash() : 0;
   vs_hashparts[0] = a; vs_hashparts[1] = b; vs_hashparts[2] = c2; vs_hashparts[3] = o;
   h = mix(mix(mix(mix(h, a), b), c2), o);
@@ -304,6 +308,7 @@ static void hb_reset(void);
 /* ---- public control ------------------------------------------------------------------------- */
 void vs_begin(void) {
   resolve();
+  scenario_base_frame = __builtin_frame_address(0);
   memset(T, 0, sizeof T);
   memset(Z, 0, sizeof Z);
   memset(VC, 0, sizeof VC);
@@ -328,16 +333,15 @@ void vs_end(void) {
 int vs_active(void) { return modelled(); }
 int vs_self(void) { return my_tid; }
 void vs_point(int kind, long group) {
-  (void)kind;
-  if (modelled()) point(OP_POINT, 0, group);
+  if (modelled()) { T[cur].kind = kind; point(OP_POINT, 0, group); }
 }
 void vs_point_fp(int kind, long group, const vs_fp_t *fp, int nfp) {
-  (void)kind;
   if (!modelled()) return;
   int me = cur;
   if (nfp > VS_MAXFP) nfp = VS_MAXFP;
   memcpy(T[me].fp, fp, sizeof(vs_fp_t) * nfp);
   T[me].nfp = nfp;
+  T[me].kind = kind;
   point(OP_POINT, (void *)&T[me].fp, group);
 }
 
